@@ -2,13 +2,15 @@
    The refinement theorems of C01 and C02 are EQUALITIES of ordered, literal-exact values (ojson:
    members as an ordered list, numbers by their literal text), against a reference whose order
    behaviour is the one the property describes.  So order and literals are part of what is proved. *)
-From JP Require Import Bytes Json Text Strings Den Pointer Rfc6902 Rfc7396 ImplV5 ImplMerge Domain JsonFacts DecodeFacts Abs ImplFacts RefFacts ApplySim ImplMergeFacts.
+From JP Require Import Bytes Json Text Strings Den Pointer Rfc6902 Rfc7396 ImplV5 ImplMerge Domain JsonFacts DecodeFacts Abs ImplFacts RefFacts Depth ApplySim ImplMergeFacts.
 
 (* Apply: the output encodes exactly the ordered reference result (same theorem as C01, read for
-   its order/literal content: aval n = j is syntactic equality of ordered trees) *)
+   its order/literal content: aval n = j is syntactic equality of ordered trees).  copies_fit: no
+   copy the reference run reaches has a source nested deeper than deepCopy accepts (see C01) *)
 Theorem C05_apply_ordered : forall o indent p doc t,
   plain_opts o -> parse doc = Some t -> root_container t = true -> tnodup t = true ->
   Forall op_dom p ->
+  copies_fit (dia o) (den t) (map den_op p) = true ->
   match rfc_apply (dia o) (den t) (map den_op p) with
   | Done j => exists n, api_apply o indent p doc = ROut (output o indent (render (o_esc o) n)) /\ aval n = j /\ ngood n
   | Failed i cz => exists e, api_apply o indent p doc = RErr (Some i) e /\ cause_rel cz e
@@ -49,7 +51,7 @@ Theorem C05_empty_patch : forall o indent doc t,
   exists n, api_apply o indent [] doc = ROut (output o indent (render (o_esc o) n)) /\ aval n = den t /\ ngood n.
 Proof.
   intros o indent doc t PO P RC T.
-  exact (api_apply_sim o indent [] doc t PO P RC T (Forall_nil _)).
+  exact (api_apply_sim o indent [] doc t PO P RC T (Forall_nil _) eq_refl).
 Qed.
 Print Assumptions C05_empty_patch.
 
